@@ -373,6 +373,63 @@ func runStrace(c *core.Ctx) {
 	}
 }
 
+// runStraceClose: the close(2) of the -o file fails with EIO (what NFS, quota and FUSE file systems do
+// when the write-back fails): "writing, flushing or closing an output stream fails".
+func runStraceClose(c *core.Ctx) {
+	if _, err := exec.LookPath("strace"); err != nil {
+		c.Inconclusive("strace not available")
+		return
+	}
+	cmds := e2eCmds()
+	cmds = append(cmds[:3], cmds[4:]...) // obicsv ignores -o (see runDevFull)
+	cmds = append(cmds, e2eCmd{"json-gz", "obiconvert", []string{"--json-output", "-Z"}, false}, e2eCmd{"fastq-gz", "obiconvert", []string{"--fastq-output", "-Z"}, true})
+	cm := cmds[c.Idx%len(cmds)]
+	n := []int{1, 3, 30, 400, 3000}[(c.Idx/len(cmds))%5]
+	in := writeInput(c, n, cm.fq)
+	defer os.Remove(in)
+	out := filepath.Join(c.Dir, fmt.Sprintf("outc-%d", c.Idx))
+	trace := out + ".strace"
+	defer os.Remove(trace)
+	defer os.Remove(out)
+	base := append([]string{"--no-progressbar", "--max-cpu", fmt.Sprint(1 + c.Rng.Intn(4)), "--batch-size", fmt.Sprint(1 + c.Rng.Intn(50))}, cm.args...)
+	for _, errno := range []string{"EIO", "ENOSPC"} {
+		args := []string{"-f", "-o", trace, "-P", out, "-e", "trace=close", "-e", "inject=close:error=" + errno + ":when=1", filepath.Join(c.BinDir, cm.bin)}
+		args = append(args, base...)
+		args = append(args, "-o", out, in)
+		res := cmdx.Run("strace", args, cmdx.Opt{})
+		tr, _ := os.ReadFile(trace)
+		os.Remove(out)
+		c.Count("evaluations", 1)
+		c.Count("strace_runs", 1)
+		det := map[string]any{"command": cm.bin, "args": base, "records": n, "close_errno": errno, "exit": res.Exit, "strace": cmdx.Tail(tr, 400), "stderr": cmdx.Tail(res.Stderr, 600)}
+		if res.TimedOut {
+			c.Inconclusive("watchdog on strace " + cm.bin)
+			continue
+		}
+		if strings.Contains(string(res.Stderr), "ptrace") && strings.Contains(string(res.Stderr), "Operation not permitted") {
+			c.Inconclusive("ptrace is not permitted here")
+			return
+		}
+		injected := strings.Contains(string(tr), "(INJECTED)")
+		c.Key("strace-close/%s/%d/%s/%v", cm.name, n, errno, injected)
+		if injected {
+			c.Count("close_faults_delivered", 1)
+		}
+		if res.Exit == 0 {
+			cause := "exit0:close-failed:" + cm.name
+			what := "the command exits 0 although the close(2) of its output file failed"
+			if !injected {
+				cause = "exit0:never-closed:" + cm.name
+				what = "the command exits 0 without ever closing its output file: a failure delivered at close time cannot be reported"
+			}
+			c.Violate(cause, what, det)
+		}
+		if errno == "EIO" && c.Idx < 2 {
+			c.Sample(det)
+		}
+	}
+}
+
 func init() {
 	core.Extra["c18fault"] = faultMain
 	var subs []core.Sub
@@ -383,11 +440,12 @@ func init() {
 	subs = append(subs,
 		core.Sub{Name: "e2e-devfull", N: core.Const(25, 100), Run: runDevFull},
 		core.Sub{Name: "e2e-strace", N: core.Const(10, 40), Run: runStrace},
+		core.Sub{Name: "e2e-strace-close", N: core.Const(12, 60), Run: runStraceClose},
 	)
 	core.Register(&core.Property{
 		ID:    "C18",
 		Level: "fault_enumeration",
-		Rule: "fault points: for each (writer, output size class below/above the 4 KiB buffer, batch arrival order, plain/gzip) the write crossing byte offset k is refused for k over the whole output (step 1 up to 8 KiB in the thorough tier, <= 160 sampled offsets per output in quick), plus a refused Close and short writes; end to end: commands writing to /dev/full (stdout and -o) and strace injecting ENOSPC on the N-th write(2) of the -o file. Oracle: a refusal announced by the sink implies a non-zero exit status of the process (one helper process per fault point running the real writer; the commands themselves end to end). " +
+		Rule: "fault points: for each (writer, output size class below/above the 4 KiB buffer, batch arrival order, plain/gzip) the write crossing byte offset k is refused for k over the whole output (step 1 up to 8 KiB in the thorough tier, <= 160 sampled offsets per output in quick), plus a refused Close and short writes; end to end: commands writing to /dev/full (stdout and -o) and strace injecting ENOSPC on the N-th write(2) of the -o file, or EIO/ENOSPC on its close(2). Oracle: a refusal announced by the sink implies a non-zero exit status of the process (one helper process per fault point running the real writer; the commands themselves end to end). " +
 			"distinct_nontrivial = distinct (writer, fault kind, size class, compression, phase) classes in which a refusal was actually delivered + distinct (command, mode, size) / (command, size, N) end-to-end runs in which the fault was effective",
 		Assume:        []string{"helper process = real writer + faulty io.WriteCloser + obiiter.WaitForLastPipe, nothing else", "e2e: /dev/full returns ENOSPC on every write; strace -e inject fails exactly the N-th write(2) of each thread on the output path"},
 		Subs:          subs,
